@@ -245,6 +245,11 @@ def extra_checks(tier, seed):
     q = z3.Const("lq", z3.SeqSort(BytesSort))
     out.append(solve("C01/lemma/seq-head-tail", [z3.Length(q) > 0],
                      q == z3.Concat(z3.Unit(q[0]), z3.Extract(q, 1, z3.Length(q) - 1)), 20000))
+    if tier == "thorough":
+        from pyvc import replaylib as Rp
+        out.append(Rp.native_crosscheck("C01/bounded/framing-boundary-cases", _HARNESS,
+                                        "payload lengths around 125 / 126 / 65535 / 65536, all read boundaries of short frames, "
+                                        "both roles, chopped and synchronous sends, against an independent RFC 6455 reference"))
     return out
 
 
